@@ -135,6 +135,8 @@ theorem remove_spec (s : Proto) (hs : s.Sorted) (id : Nat) :
 
 @[simp] theorem callsOf_append (a b : List LogEntry) : callsOf (a ++ b) = callsOf a ++ callsOf b := by
   simp [callsOf]
+@[simp] theorem ncallsOf_append (a b : List LogEntry) : ncallsOf (a ++ b) = ncallsOf a ++ ncallsOf b := by
+  simp [ncallsOf]
 @[simp] theorem txOf_append (a b : List LogEntry) : txOf (a ++ b) = txOf a ++ txOf b := by
   simp [txOf]
 
@@ -144,25 +146,121 @@ structure Proto.SameCfg (s s' : Proto) : Prop where
   handlers : s'.handlers = s.handlers
   rxQueue : s'.rxQueue = s.rxQueue
 
+theorem Proto.SameCfg.trans {a b c : Proto} (h1 : Proto.SameCfg a b) (h2 : Proto.SameCfg b c) : Proto.SameCfg a c :=
+  ⟨h2.addr.trans h1.addr, h2.handlers.trans h1.handlers, h2.rxQueue.trans h1.rxQueue⟩
+
 theorem ifaceSend_spec (s : Proto) (p : Packet) :
     Proto.SameCfg s (s.ifaceSend p).1 ∧ callsOf (s.ifaceSend p).1.log = callsOf s.log ∧
     txOf (s.ifaceSend p).1.log = txOf s.log ++ [p] := by
   unfold Proto.ifaceSend
   rcases h : s.txQueue with _ | ⟨_ | t, q⟩ <;> simp [callsOf, txOf] <;> exact ⟨rfl, rfl, rfl⟩
 
+theorem ifaceSend_ncalls (s : Proto) (p : Packet) : ncallsOf (s.ifaceSend p).1.log = ncallsOf s.log := by
+  unfold Proto.ifaceSend
+  rcases h : s.txQueue with _ | ⟨_ | t, q⟩ <;> simp [ncallsOf]
+
+theorem callsOf_ncallEntries (hs : List (Nat × Handler)) (q : Packet) :
+    callsOf (hs.map fun x => LogEntry.ncall x.2.token q) = [] := by
+  induction hs with
+  | nil => rfl
+  | cons x t ih => simp [callsOf] at ih ⊢
+
+theorem txOf_ncallEntries (hs : List (Nat × Handler)) (q : Packet) :
+    txOf (hs.map fun x => LogEntry.ncall x.2.token q) = [] := by
+  induction hs with
+  | nil => rfl
+  | cons x t ih => simp [txOf] at ih ⊢
+
+theorem ncallsOf_ncallEntries (hs : List (Nat × Handler)) (q : Packet) :
+    ncallsOf (hs.map fun x => LogEntry.ncall x.2.token q) = hs.map fun x => (x.2.token, q) := by
+  induction hs with
+  | nil => rfl
+  | cons x t ih => simpa [ncallsOf] using ih
+
+theorem nestedDispatch_spec (s : Proto) (q : Packet) :
+    Proto.SameCfg s (s.nestedDispatch q) ∧ callsOf (s.nestedDispatch q).log = callsOf s.log ∧
+    ncallsOf (s.nestedDispatch q).log = ncallsOf s.log ++ (s.handlers.map fun x => (x.2.token, q)) ∧
+    txOf (s.nestedDispatch q).log = txOf s.log := by
+  refine ⟨⟨rfl, rfl, rfl⟩, ?_, ?_, ?_⟩
+  · simp [Proto.nestedDispatch, callsOf_ncallEntries]
+  · simp [Proto.nestedDispatch, ncallsOf_ncallEntries]
+  · simp [Proto.nestedDispatch, txOf_ncallEntries]
+
+/-- C16 for a send issued from inside a callback: the same routing as a send from outside. A packet for the device
+itself is delivered (re-entrantly) exactly once to every registered handler in id order and stays off the link, unless the
+device's own address is the broadcast address, in which case it is also transmitted; any other packet is transmitted once,
+unmodified, and no handler is invoked -/
+theorem nestedSend_spec (s : Proto) (q : Packet) :
+    Proto.SameCfg s (s.nestedSend q) ∧ callsOf (s.nestedSend q).log = callsOf s.log ∧
+    (q.addr = s.addr → s.addr ≠ BROADCAST →
+        ncallsOf (s.nestedSend q).log = ncallsOf s.log ++ (s.handlers.map fun x => (x.2.token, q)) ∧
+        txOf (s.nestedSend q).log = txOf s.log) ∧
+    (q.addr = s.addr → s.addr = BROADCAST →
+        ncallsOf (s.nestedSend q).log = ncallsOf s.log ++ (s.handlers.map fun x => (x.2.token, q)) ∧
+        txOf (s.nestedSend q).log = txOf s.log ++ [q]) ∧
+    (q.addr ≠ s.addr →
+        ncallsOf (s.nestedSend q).log = ncallsOf s.log ∧ txOf (s.nestedSend q).log = txOf s.log ++ [q]) := by
+  obtain ⟨c1, l1, n1, t1⟩ := nestedDispatch_spec s q
+  obtain ⟨c2, l2, t2⟩ := ifaceSend_spec (s.nestedDispatch q) q
+  have n2 := ifaceSend_ncalls (s.nestedDispatch q) q
+  obtain ⟨c3, l3, t3⟩ := ifaceSend_spec s q
+  have n3 := ifaceSend_ncalls s q
+  by_cases ha : q.addr = s.addr
+  · by_cases hb : s.addr = BROADCAST
+    · have hbb : (s.addr != BROADCAST) = false := by simp [hb]
+      have e : s.nestedSend q = ((s.nestedDispatch q).ifaceSend q).1 := by
+        simp [Proto.nestedSend, ha, hbb]
+      rw [e]
+      refine ⟨c1.trans c2, l2.trans l1, fun _ h => absurd hb h, fun _ _ => ⟨n2.trans n1, by rw [t2, t1]⟩,
+        fun h => absurd ha h⟩
+    · have hbb : (s.addr != BROADCAST) = true := by simp [hb]
+      have e : s.nestedSend q = s.nestedDispatch q := by
+        simp [Proto.nestedSend, ha, hbb]
+      rw [e]
+      exact ⟨c1, l1, fun _ _ => ⟨n1, t1⟩, fun _ h => absurd h hb, fun h => absurd ha h⟩
+  · have hab : (q.addr == s.addr) = false := by simp [ha]
+    have e : s.nestedSend q = (s.ifaceSend q).1 := by
+      simp [Proto.nestedSend, hab]
+    rw [e]
+    exact ⟨c3, l3, fun h => absurd h ha, fun h => absurd h ha, fun _ => ⟨n3, t3⟩⟩
+
+/-- the same, as one equation per projection of the log -/
+theorem nestedSend_log (s : Proto) (q : Packet) :
+    ncallsOf (s.nestedSend q).log = ncallsOf s.log ++ loopCalls s.addr s.handlers [q] ∧
+    txOf (s.nestedSend q).log = txOf s.log ++ wireSends s.addr [q] := by
+  obtain ⟨_, _, h1, h2, h3⟩ := nestedSend_spec s q
+  by_cases ha : q.addr = s.addr
+  · by_cases hb : s.addr = BROADCAST
+    · obtain ⟨n, t⟩ := h2 ha hb
+      exact ⟨by rw [n]; simp [loopCalls, ha], by rw [t]; simp [wireSends, hb]⟩
+    · obtain ⟨n, t⟩ := h1 ha hb
+      exact ⟨by rw [n]; simp [loopCalls, ha], by rw [t]; simp [wireSends, ha, hb]⟩
+  · obtain ⟨n, t⟩ := h3 ha
+    exact ⟨by rw [n]; simp [loopCalls, ha], by rw [t]; simp [wireSends, ha]⟩
+
+theorem loopCalls_cons (a : UInt16) (hs : List (Nat × Handler)) (q : Packet) (qs : List Packet) :
+    loopCalls a hs (q :: qs) = loopCalls a hs [q] ++ loopCalls a hs qs := by
+  by_cases h : q.addr = a <;> simp [loopCalls, h]
+
+theorem wireSends_cons (a : UInt16) (q : Packet) (qs : List Packet) :
+    wireSends a (q :: qs) = wireSends a [q] ++ wireSends a qs := by
+  simp only [wireSends, List.filter_cons, List.filter_nil]
+  split <;> simp
+
 theorem handlerSends_spec (s : Proto) (qs : List Packet) :
     Proto.SameCfg s (s.handlerSends qs) ∧ callsOf (s.handlerSends qs).log = callsOf s.log ∧
-    txOf (s.handlerSends qs).log = txOf s.log ++ qs := by
+    ncallsOf (s.handlerSends qs).log = ncallsOf s.log ++ loopCalls s.addr s.handlers qs ∧
+    txOf (s.handlerSends qs).log = txOf s.log ++ wireSends s.addr qs := by
   induction qs generalizing s with
-  | nil => simp [Proto.handlerSends]; exact ⟨rfl, rfl, rfl⟩
+  | nil => simp [Proto.handlerSends, loopCalls, wireSends]; exact ⟨rfl, rfl, rfl⟩
   | cons q qs ih =>
-    obtain ⟨c1, l1, t1⟩ := ifaceSend_spec s q
-    obtain ⟨c2, l2, t2⟩ := ih (s.ifaceSend q).1
+    obtain ⟨c1, l1, _⟩ := nestedSend_spec s q
+    obtain ⟨n1, t1⟩ := nestedSend_log s q
+    obtain ⟨c2, l2, n2, t2⟩ := ih (s.nestedSend q)
     simp only [Proto.handlerSends]
-    exact ⟨⟨c2.addr.trans c1.addr, c2.handlers.trans c1.handlers, c2.rxQueue.trans c1.rxQueue⟩,
-      l2.trans l1, by rw [t2, t1]; simp⟩
-
-
+    refine ⟨c1.trans c2, l2.trans l1, ?_, ?_⟩
+    · rw [n2, n1, c1.addr, c1.handlers, loopCalls_cons s.addr s.handlers q qs, List.append_assoc]
+    · rw [t2, t1, c1.addr, wireSends_cons s.addr q qs, List.append_assoc]
 
 theorem dispatch_fold (hs : List (Nat × Handler)) (st : Proto) (p : Packet) (owned : Bool) :
     let r := hs.foldl (fun st (x : Nat × Handler) =>
@@ -171,31 +269,37 @@ theorem dispatch_fold (hs : List (Nat × Handler)) (st : Proto) (p : Packet) (ow
       else st) st
     Proto.SameCfg st r ∧
     callsOf r.log = callsOf st.log ++ (recipients hs owned).map (fun h => (h.token, p)) ∧
-    txOf r.log = txOf st.log ++ (recipients hs owned).flatMap (·.sends) := by
+    ncallsOf r.log = ncallsOf st.log ++ (recipients hs owned).flatMap (fun h => loopCalls st.addr st.handlers h.sends) ∧
+    txOf r.log = txOf st.log ++ (recipients hs owned).flatMap (fun h => wireSends st.addr h.sends) := by
   induction hs generalizing st with
   | nil => simp [recipients]; exact ⟨rfl, rfl, rfl⟩
   | cons x t ih =>
     simp only [List.foldl_cons]
     by_cases hx : (owned || x.2.captureAll) = true
     · simp only [hx, if_true]
-      obtain ⟨c1, l1, t1⟩ := handlerSends_spec ({ st with log := st.log ++ [LogEntry.call x.2.token p] }) x.2.sends
-      obtain ⟨c2, l2, t2⟩ := ih (({ st with log := st.log ++ [LogEntry.call x.2.token p] }).handlerSends x.2.sends)
-      refine ⟨⟨c2.addr.trans c1.addr, c2.handlers.trans c1.handlers, c2.rxQueue.trans c1.rxQueue⟩, ?_, ?_⟩
+      obtain ⟨c1, l1, n1, t1⟩ := handlerSends_spec ({ st with log := st.log ++ [LogEntry.call x.2.token p] }) x.2.sends
+      obtain ⟨c2, l2, n2, t2⟩ := ih (({ st with log := st.log ++ [LogEntry.call x.2.token p] }).handlerSends x.2.sends)
+      refine ⟨⟨c2.addr.trans c1.addr, c2.handlers.trans c1.handlers, c2.rxQueue.trans c1.rxQueue⟩, ?_, ?_, ?_⟩
       · rw [l2, l1]; simp [recipients, hx, callsOf]
-      · rw [t2, t1]; simp [recipients, hx, txOf]
+      · rw [n2, n1, c1.addr, c1.handlers]; simp [recipients, hx, ncallsOf]
+      · rw [t2, t1, c1.addr]; simp [recipients, hx, txOf]
     · simp only [Bool.not_eq_true] at hx
       simp only [hx, Bool.false_eq_true, if_false]
-      obtain ⟨c2, l2, t2⟩ := ih st
-      refine ⟨c2, ?_, ?_⟩
+      obtain ⟨c2, l2, n2, t2⟩ := ih st
+      refine ⟨c2, ?_, ?_, ?_⟩
       · rw [l2]; simp [recipients, hx]
+      · rw [n2]; simp [recipients, hx]
       · rw [t2]; simp [recipients, hx]
 
-/-- C15: a dispatched packet reaches exactly the recipients, in id order, each once, unmodified, and
-the packets they transmit go out in that order; nothing else about the node changes -/
+/-- C15: a dispatched packet reaches exactly the recipients, in id order, each once, unmodified; the packets their
+callbacks send to other devices go out in that order, and those they send to the device itself are looped back (C16);
+nothing else about the node changes -/
 theorem dispatch_spec (s : Proto) (p : Packet) (owned : Bool) :
     Proto.SameCfg s (s.dispatch p owned) ∧
     callsOf (s.dispatch p owned).log = callsOf s.log ++ (recipients s.handlers owned).map (fun h => (h.token, p)) ∧
-    txOf (s.dispatch p owned).log = txOf s.log ++ (recipients s.handlers owned).flatMap (·.sends) := by
+    ncallsOf (s.dispatch p owned).log = ncallsOf s.log ++
+      (recipients s.handlers owned).flatMap (fun h => loopCalls s.addr s.handlers h.sends) ∧
+    txOf (s.dispatch p owned).log = txOf s.log ++ (recipients s.handlers owned).flatMap (fun h => wireSends s.addr h.sends) := by
   have := dispatch_fold s.handlers s p owned
   simpa [Proto.dispatch] using this
 
@@ -216,7 +320,7 @@ theorem tick_spec (s : Proto) :
   · rcases r with e | p
     · cases e <;> simp [Proto.tick, h]
     · simp only [Proto.tick, h]
-      obtain ⟨c, l, _⟩ := dispatch_spec { s with rxQueue := q } p (p.addr == s.addr || p.addr == BROADCAST)
+      obtain ⟨c, l, _, _⟩ := dispatch_spec { s with rxQueue := q } p (p.addr == s.addr || p.addr == BROADCAST)
       exact ⟨trivial, c.rxQueue, c.handlers, l⟩
 
 /-- C16: routing of `send_packet` -/
@@ -224,14 +328,14 @@ theorem sendPacket_spec (s : Proto) (p : Packet) :
     (p.addr = s.addr → s.addr ≠ BROADCAST →
         (s.sendPacket p).2 = .ok () ∧
         callsOf (s.sendPacket p).1.log = callsOf s.log ++ (s.handlers.map fun x => (x.2.token, p)) ∧
-        txOf (s.sendPacket p).1.log = txOf s.log ++ (s.handlers.map Prod.snd).flatMap (·.sends)) ∧
+        txOf (s.sendPacket p).1.log = txOf s.log ++ (s.handlers.map Prod.snd).flatMap (fun h => wireSends s.addr h.sends)) ∧
     (p.addr = s.addr → s.addr = BROADCAST →
         callsOf (s.sendPacket p).1.log = callsOf s.log ++ (s.handlers.map fun x => (x.2.token, p)) ∧
-        txOf (s.sendPacket p).1.log = txOf s.log ++ (s.handlers.map Prod.snd).flatMap (·.sends) ++ [p]) ∧
+        txOf (s.sendPacket p).1.log = txOf s.log ++ (s.handlers.map Prod.snd).flatMap (fun h => wireSends s.addr h.sends) ++ [p]) ∧
     (p.addr ≠ s.addr →
         callsOf (s.sendPacket p).1.log = callsOf s.log ∧ txOf (s.sendPacket p).1.log = txOf s.log ++ [p]) := by
   have hrec : recipients s.handlers true = s.handlers.map Prod.snd := by simp [recipients]
-  obtain ⟨c, l, t⟩ := dispatch_spec s p true
+  obtain ⟨c, l, _, t⟩ := dispatch_spec s p true
   rw [hrec] at l t
   refine ⟨?_, ?_, ?_⟩
   · intro h1 h2
@@ -248,7 +352,21 @@ theorem sendPacket_spec (s : Proto) (p : Packet) :
     obtain ⟨_, l2, t2⟩ := ifaceSend_spec s p
     exact ⟨l2, t2⟩
 
+/-- C16: the loop-back sends of the callbacks run by a send to the own address -/
+theorem sendPacket_ncalls (s : Proto) (p : Packet) (h : p.addr = s.addr) :
+    ncallsOf (s.sendPacket p).1.log = ncallsOf s.log ++
+      (s.handlers.map Prod.snd).flatMap (fun h => loopCalls s.addr s.handlers h.sends) := by
+  have hrec : recipients s.handlers true = s.handlers.map Prod.snd := by simp [recipients]
+  obtain ⟨_, _, n, _⟩ := dispatch_spec s p true
+  rw [hrec] at n
+  simp only [Proto.sendPacket, h, beq_self_eq_true, if_true]
+  split
+  · exact n
+  · exact (ifaceSend_ncalls _ p).trans n
+
 #print axioms nextId_fresh
+#print axioms nestedSend_spec
+#print axioms sendPacket_ncalls
 #print axioms add_spec
 #print axioms remove_spec
 #print axioms dispatch_spec
